@@ -47,8 +47,10 @@ theorem Settled.of_eq {cfg : Cfg} {s s' : State} (h : Settled cfg s) (hd : s'.de
   unfold Settled views at *; rw [hd, hc]; exact h
 
 theorem SettledV.congr_dev {cfg : Cfg} {d d' : Dev} {vs : List CV} (h : SettledV cfg d vs)
-    (ho : d'.opened = d.opened) (ha : d'.allServices = d.allServices) : SettledV cfg d' vs :=
-  ⟨h.gs, fun hh => h.os (by rw [← ho]; exact hh), fun hh => by rw [ha]; exact h.un (by rw [← ho]; exact hh)⟩
+    (ho : d'.opened = d.opened) (ha : d'.allServices = d.allServices)
+    (hm : d'.maxLines = d.maxLines := by rfl) (hac : d'.active = d.active := by rfl) : SettledV cfg d' vs :=
+  ⟨h.gs, fun hh => h.os (by rw [← ho]; exact hh), fun hh => by rw [ha]; exact h.un (by rw [← ho]; exact hh),
+   fun hh => by rw [hm, hac]; exact h.lines (by rw [← ho]; exact hh)⟩
 
 theorem unionV_set {vs : List CV} {i : Nat} {v v' : CV} (hi : vs[i]? = some v) (hc : contrib v' = contrib v) :
     unionV (vs.set i v') = unionV vs := by
@@ -61,7 +63,7 @@ theorem settledV_set {cfg : Cfg} {d : Dev} {vs : List CV} {i : Nat} {v v' : CV} 
     (hi : vs[i]? = some v) (hc : contrib v' = contrib v)
     (hg : v'.state = .forward → v'.allServices = allOf cfg v'.services) : SettledV cfg d (vs.set i v') :=
   ⟨forall_mem_set h.gs hg, fun ho => by rw [unionV_set hi hc]; exact h.os ho,
-   fun ho => by rw [unionV_set hi hc]; exact h.un ho⟩
+   fun ho => by rw [unionV_set hi hc]; exact h.un ho, h.lines⟩
 
 /-- a client whose view does not change -/
 theorem Core.setClient_same {cfg : Cfg} {s : State} {i : Nat} {c c' : Client} (h : Core cfg s)
@@ -89,16 +91,17 @@ theorem releaseOwn_ok {cfg : Cfg} {s : State} {i : Nat} {fate : Fate} (hf : fate
       devRest s1.dev = devRest s.dev ∧ s1.msgs = s.msgs ∧
       (s.clients[i]? = none → s1 = s) ∧
       (∀ c, s.clients[i]? = some c → ∃ c1, s1.clients[i]? = some c1 ∧ c1.backlog = 0 ∧ c1.state = c.state ∧
-        c1.allServices = c.allServices ∧ c1.services = c.services ∧ c1.eof = c.eof ∧ c1.id = c.id) := by
+        c1.allServices = c.allServices ∧ c1.services = c.services ∧ c1.eof = c.eof ∧ c1.id = c.id) ∧
+      s1.clients.length = s.clients.length ∧ (∀ j, j ≠ i → s1.clients[j]? = s.clients[j]?) := by
   cases hi : s.clients[i]? with
   | none =>
-    refine ⟨s, by simp [releaseOwn, hi], h, id, rfl, rfl, fun _ => rfl, ?_⟩
+    refine ⟨s, by simp [releaseOwn, hi], h, id, rfl, rfl, fun _ => rfl, ?_, rfl, fun _ _ => rfl⟩
     intro c hc; cases hc
   | some c =>
     obtain ⟨q', f', hr, hcore⟩ := coreV_releaseAll fate hf h (views_getElem? hi)
     have hr' : releaseAllQ s.dev.q s.dev.free c.backlog = .ok (q', f') := hr
     let c1 : Client := { c with backlog := 0, done := ((s.dev.q.take c.backlog).map (·.frame)).map (·, fate) ++ c.done }
-    refine ⟨setClient { s with dev := { s.dev with q := q', free := f' } } i c1, ?_, ?_, ?_, rfl, rfl, ?_, ?_⟩
+    refine ⟨setClient { s with dev := { s.dev with q := q', free := f' } } i c1, ?_, ?_, ?_, rfl, rfl, ?_, ?_, ?_, ?_⟩
     · simp only [releaseOwn, hi, hr']; rfl
     · unfold Core; rw [views_setClient]; exact hcore
     · intro hs
@@ -108,6 +111,11 @@ theorem releaseOwn_ok {cfg : Cfg} {s : State} {i : Nat} {fate : Fate} (hf : fate
     · intro c' hc'
       cases hc'
       exact ⟨c1, setClient_getElem? (s := { s with dev := { s.dev with q := q', free := f' } }) hi, rfl, rfl, rfl, rfl, rfl, rfl⟩
+    · show (s.clients.set i c1).length = s.clients.length
+      simp
+    · intro j hj
+      show (s.clients.set i c1)[j]? = s.clients[j]?
+      rw [List.getElem?_set_ne (fun h => hj h.symm)]
 
 /-- `vbi_proxyd_close`: succeeds; afterwards the client is CLOSED without queued frames; the device's service
 set is stale exactly if the client had services -/
@@ -129,7 +137,7 @@ theorem closeClient_ok {cfg : Cfg} {s : State} {i : Nat} (h : Core cfg s) (hs : 
         · exact Or.inl hs
         · rw [hi] at hc'; cases hc'; exact Or.inr ⟨c, hi, hcl, hne⟩
       · intro c' hc'; cases hc'; exact ⟨c, hi, hcl⟩
-    · obtain ⟨s1, hr, hcore1, hset1, hdev1, _, _, hc1⟩ := releaseOwn_ok (cfg := cfg) (s := s) (i := i) (fate := Fate.closed) trivial h
+    · obtain ⟨s1, hr, hcore1, hset1, hdev1, _, _, hc1, _, _⟩ := releaseOwn_ok (cfg := cfg) (s := s) (i := i) (fate := Fate.closed) trivial h
       obtain ⟨c1, hi1, hb1, hst1, has1, hsv1, heof1, hid1⟩ := hc1 c hi
       let c2 : Client := { c1 with state := .closed, out := none }
       let s2 : State := { setClient s1 i c2 with msgs := if c.eof then s1.msgs else s1.msgs ++ [(c.id, none)] }
